@@ -244,6 +244,9 @@ func elemArrSort(t types.Type) string {
 	case isString(t):
 		return SArrS
 	}
+	if _, ok := under(t).(*types.Interface); ok {
+		return SArrR
+	}
 	return ""
 }
 
